@@ -271,12 +271,25 @@ func denorm(r *sim.Rng, m *WMsg, intensity int, st *DenormStats, inLazy bool) {
 				if IsLazy(fd) {
 					cands = append(cands, fd, fd)
 				}
+			} else if od := fd.ContainingOneof(); od != nil && !od.IsSynthetic() && fd.Kind() != protoreflect.GroupKind {
+				// a scalar member of a oneof: the record names no member and must not disturb the selection
+				cands = append(cands, fd)
 			}
 		}
 		if len(cands) > 0 && !messageset.IsMessageSet(m.MD) {
 			fd := cands[r.Intn(len(cands))]
 			nd := &WNode{Num: fd.Number()} // FD stays nil: it is an unknown field as far as content goes
-			switch r.Intn(3) {
+			pick := r.Intn(3)
+			switch fd.Kind() {
+			case protoreflect.MessageKind, protoreflect.StringKind, protoreflect.BytesKind:
+			case protoreflect.Fixed32Kind, protoreflect.Sfixed32Kind, protoreflect.FloatKind:
+				pick = []int{0, 2}[r.Intn(2)]
+			case protoreflect.Fixed64Kind, protoreflect.Sfixed64Kind, protoreflect.DoubleKind:
+				pick = r.Intn(2)
+			default: // varint kinds
+				pick = 1 + r.Intn(2)
+			}
+			switch pick {
 			case 0:
 				nd.Typ = protowire.VarintType
 				nd.Varint = uint64(r.Intn(300))
